@@ -234,8 +234,11 @@ def handmade(ctx, cfg, lab, peer):
         xid = (rng.choice([0x01, 0x7A, 0x99]) << 24) | rng.getrandbits(24)
         if rng.random() < 0.5:
             xid = (xid & 0xFFFF7FFF) | (rng.getrandbits(1) << 15)       # third byte's top bit: the datagram does / does not read as a DNS response
+        if rng.random() < 0.35:
+            # boundary and arbitrary transaction ids (an xid of 0 makes the words of a reply read like those of a call one word later)
+            xid = rng.choice([0, 0, 1, 2, 0xFFFFFFFF, 0x80000000, 0x00000100, rng.getrandbits(32), rng.getrandbits(32)])
         # accepted replies with results of every size (GETPORT: one word; NFS / mount results: many small words), denied replies
-        results = rng.choice([b"", struct.pack("!II", 2, 4), struct.pack("!I", 111), bytes(16), struct.pack("!IIII", 0, 0, 0, 0) + bytes(rng.randrange(0, 64) & ~3),
+        results = rng.choice([b"", struct.pack("!II", 2, 4), struct.pack("!I", 111), bytes(16), bytes(12), bytes(8), bytes(4 * rng.randrange(1, 12)), struct.pack("!IIII", 0, 0, 0, 0) + bytes(rng.randrange(0, 64) & ~3),
                               b"".join(struct.pack("!I", rng.choice([0, 0, 1, 2, 4, 8])) for _x in range(rng.randrange(4, 24)))])
         body = struct.pack("!IIIIII", xid, 1, 0, 0, 0, rng.choice([0, 0, 0, 1, 2, 3])) + results
         if rng.random() < 0.15:
